@@ -1,6 +1,7 @@
 from __future__ import print_function
 import numpy as np
 from PseudoNetCDF import PseudoNetCDFFile, PseudoNetCDFVariable
+from PseudoNetCDF.core._variables import PseudoNetCDFMaskedVariable
 from PseudoNetCDF import PseudoNetCDFVariables
 from PseudoNetCDF.coordutil import gettimes
 from PseudoNetCDF._getwriter import registerwriter
@@ -862,7 +863,18 @@ class arlpackedbit(PseudoNetCDFFile):
             props['LEVEL_START'] = vhead['LEVEL'][0, 0]
             props['LEVEL_END'] = vhead['LEVEL'][-1, -1]
             vdata = unpack(bytes, v11, EXP)
-            out = PseudoNetCDFVariable(
+            if len(mylaykeys) != len(laykeys):
+                # on some levels only: missing (masked) on the others
+                fulldata = np.ma.masked_all(
+                    (vdata.shape[0], len(laykeys)) + vdata.shape[2:],
+                    dtype=vdata.dtype)
+                layidx = [list(laykeys).index(lk) for lk in mylaykeys]
+                fulldata[:, layidx] = vdata
+                vdata = fulldata
+                vcls = PseudoNetCDFMaskedVariable
+            else:
+                vcls = PseudoNetCDFVariable
+            out = vcls(
                 self, varkey, 'f', ('time', 'z', 'y', 'x'),
                 values=vdata, units=stdunit,
                 standard_name=stdname, **props
